@@ -114,6 +114,8 @@ FIXED = [
     ("C06", "06107d4", "`1 / (-5 % 5)` was Infinity: the integer remainder path negated an int zero"),
     ("C16", "23541d6", "`'\ufeffa'.trim().length` was 2 and `'\x1ca'.trim().length` 1, `parseFloat('\x1c1.5')` 1.5: str.strip() with the host's white-space set"),
     ("C17", "d7ced48", "`[NaN].includes(NaN)` was false: includes compared with strict equality instead of SameValueZero"),
+    ("C18", "d20b976", "`1/Math.ceil(-0.5)`, `1/Math.trunc(-0.5)`, `1/Math.round(-0.2)`, `1/Math.sign(-0)`, `1/parseInt('-0')` were Infinity, `Math.max(1, NaN)` 1, `1/Math.max(-0, 0)` -Infinity, `Math.round(0.49999999999999994)` 1: host ints without -0, host min()/max(), floor(x + 0.5)"),
+    ("C18", "d0c0de9", "`(0.5).toString(2)` was '0.5' and `(255.5).toString(16)` '255.5': the radix was ignored for numbers with a fraction (host str())"),
 ]
 
 
